@@ -258,7 +258,13 @@ class CommentStyle:
         lines = text.splitlines()
         end: Optional[int] = None
 
-        if cls.can_handle_single():
+        # Look for a multi-line comment first, as parse_comment() does: in
+        # styles like Julia, the multi-line opener '#=' also starts with the
+        # single-line marker '#'.
+        starts_multi = cls.can_handle_multi() and text.startswith(
+            cls.MULTI_LINE.start
+        )
+        if cls.can_handle_single() and not starts_multi:
             for i, line in enumerate(lines):
                 if (
                     cls.SINGLE_LINE_REGEXP
@@ -267,11 +273,7 @@ class CommentStyle:
                     end = i
                 else:
                     break
-        if (
-            end is None
-            and cls.can_handle_multi()
-            and text.startswith(cls.MULTI_LINE.start)
-        ):
+        if end is None and starts_multi:
             for i, line in enumerate(lines):
                 end = i
                 if line.endswith(cls.MULTI_LINE.end):
